@@ -58,6 +58,15 @@ def strategy(draw):
         spec["bad_not_first"] = True
     edge = gc.dilute_box(spec)
     spec["opts"] = {"box": [edge, edge, edge]}
+    if draw(st.integers(0, 2)) == 0:
+        # a start structure that covers part of the system (possibly part of the disconnected molecule):
+        # the molecule is refused all the same
+        from . import c03
+        spec["coords"] = draw(c03.supplied_coords(spec, [edge, edge, edge], mode=draw(st.sampled_from(["c", "mc"])),
+                                                  nres=draw(st.integers(1, max(1, sum(
+                                                      c * len([m for m in spec["moltypes"] if m["name"] == n][0]["residues"])
+                                                      for n, c in spec["molecules"]) - 1)))))
+        spec["with_coords"] = True
     spec["half"] = "gen_coords"
     spec["mode"] = mode
     return spec
@@ -80,4 +89,6 @@ def check(spec, ctx):
         raise crash(f"gen_coords:disconnected_{mode}_crash", res.exc)
     if spec.get("bad_not_first"):
         ctx.label("coords_disconnected_not_first")
+    if spec.get("with_coords"):
+        ctx.label("coords_disconnected_with_start_structure")
     ctx.nontrivial = True
